@@ -8,6 +8,8 @@ import (
 	"crypto/ecdsa"
 	"encoding/binary"
 	"fmt"
+	"github.com/ethereum/go-ethereum/log"
+	"log/slog"
 	"net"
 	"os"
 	"os/exec"
@@ -51,6 +53,14 @@ import (
 //	    outbound: `held0` outbound slots taken by the harness, one more taken for an offer that the peer ACCEPTS with a
 //	    connection id on which no uTP stream ever comes up: the transfer goroutine keeps dialling.  during / calls_during =
 //	    free outbound slots and Release calls seen 400 ms after offer() returned, after / calls = at quiescence
+//	permops <in|out> <limit> <ops> | ok s=<got>:<free>,<got>:<free>,..
+//	    any sequence of Get..Permit / Release on the node's real utpController; ops = ','-separated g (Get) or r<i> (Release
+//	    through the i-th handle ever handed out, again and again if the sequence says so); per step: got (1/0, - for a
+//	    release) and the number of slots obtainable right after the step
+//	laterelease <limit> v<ver> | ok a=<0|1> b=<0|1> during=<f> c=<0|1> after=<f>
+//	    inbound: transfer A completes over uTP and its receive goroutine is parked right after "release permit fast" (a
+//	    blocking log handler on the trace line that follows); OFFER B is accepted (takes the freed slot); A's goroutine is let
+//	    go (its deferred Release runs); then: free inbound slots while B is in progress, a third OFFER C, slots at the end
 //	instress <limit> <n> | ok accepted=<a> free=<f>                n offers of distinct keys at once, then Stop()
 //	stress <limit> <k> <m> | ok peak=<p> free=<f>                  k goroutines x m offers, peak = most slots held at once
 func init() { registry["C16"] = runC16 }
@@ -740,6 +750,132 @@ func c16ostallCase(g *c16gen, limit, held0, ver int) string {
 	return fmt.Sprintf("ostall %d %d v%d | ok res=%s during=%d calls_during=%d after=%d calls=%d", limit, held0, ver, res, during, callsDuring, after, permit.calls.Load())
 }
 
+// ---------------------------------------------------------------- stale handles
+
+func c16permopsCase(g *c16gen, dir string, limit int, ops string) string {
+	A, _ := c16node(g, limit, []byte{0, 1}, 4, true)
+	defer A.Stop()
+	get := A.InboundPermit
+	if dir == "out" {
+		get = A.OutboundPermit
+	}
+	var handles []portalwire.Permit
+	var obs []string
+	for _, o := range strings.Split(ops, ",") {
+		got := "-"
+		if o == "g" {
+			p, ok := get()
+			handles = append(handles, p)
+			got = "0"
+			if ok {
+				got = "1"
+			}
+		} else if strings.HasPrefix(o, "r") {
+			if i := c16atoi(o[1:]); i < len(handles) {
+				handles[i].Release()
+			}
+		}
+		obs = append(obs, fmt.Sprintf("%s:%d", got, c16free(get, limit+2)))
+	}
+	return fmt.Sprintf("permops %s %d %s | ok s=%s", dir, limit, ops, strings.Join(obs, ","))
+}
+
+// c16blockLog parks whoever logs a message with the given prefix until release is closed.
+type c16blockLog struct {
+	prefix  string
+	reached chan struct{}
+	release chan struct{}
+	once    sync.Once
+}
+
+func (h *c16blockLog) Enabled(context.Context, slog.Level) bool { return true }
+func (h *c16blockLog) Handle(_ context.Context, r slog.Record) error {
+	if strings.HasPrefix(r.Message, h.prefix) {
+		h.once.Do(func() { close(h.reached) })
+		<-h.release
+	}
+	return nil
+}
+func (h *c16blockLog) WithAttrs([]slog.Attr) slog.Handler { return h }
+func (h *c16blockLog) WithGroup(string) slog.Handler      { return h }
+
+func c16lateReleaseCase(g *c16gen, limit, ver int) string {
+	A, aq := c16node(g, limit, []byte{0, 1}, 8, true)
+	defer A.Stop()
+	B, _ := c16node(g, 50, c16pv(ver), 4, true)
+	defer B.Stop()
+	h := &c16blockLog{prefix: "<< OFFER_CONTENT", reached: make(chan struct{}), release: make(chan struct{})}
+	A.P.Log = log.NewLogger(h)
+	released := false
+	let := func() {
+		if !released {
+			released = true
+			close(h.release)
+		}
+	}
+	defer let()
+	B.Ping(A.Self())
+	// limit-1 slots are taken by the harness: exactly one is left
+	var held []portalwire.Permit
+	for i := 0; i < limit-1; i++ {
+		if p, ok := A.InboundPermit(); ok {
+			held = append(held, p)
+		}
+	}
+	defer func() {
+		for _, p := range held {
+			p.Release()
+		}
+	}()
+	head := fmt.Sprintf("laterelease %d v%d", limit, ver)
+	ctx, cancel := context.WithTimeout(context.Background(), 20*time.Second)
+	defer cancel()
+	a, b, cc, during := 0, 0, 0, -1
+	accA, idA := c16talkOffer(B, A, ver, append([]byte("c16-late-a-"), g.bytes(8)...))
+	if !accA {
+		return head + " | err 1"
+	}
+	a = 1
+	conn, err := B.P.Utp.DialWithCid(ctx, A.Self(), idA)
+	if err != nil {
+		return head + " | err 2"
+	}
+	conn.Write(ctx, append(c16uvarint(3), 1, 2, 3))
+	conn.Close()
+	select {
+	case <-h.reached: // A's goroutine has made its fast release and is parked before handleOfferedContents
+	case <-time.After(10 * time.Second):
+		return head + " | err 3"
+	}
+	accB, idB := c16talkOffer(B, A, ver, append([]byte("c16-late-b-"), g.bytes(8)...))
+	if accB {
+		b = 1
+	}
+	let() // A's goroutine runs to its end: handleOfferedContents, return, deferred Release
+	select {
+	case <-aq:
+	case <-time.After(10 * time.Second):
+	}
+	time.Sleep(200 * time.Millisecond)
+	during = c16free(A.InboundPermit, limit)
+	if accC, idC := c16talkOffer(B, A, ver, append([]byte("c16-late-c-"), g.bytes(8)...)); accC {
+		cc = 1
+		if c3, err := B.P.Utp.DialWithCid(ctx, A.Self(), idC); err == nil {
+			c3.Write(ctx, append(c16uvarint(1), 9))
+			c3.Close()
+		}
+	}
+	if accB { // complete B
+		if c2, err := B.P.Utp.DialWithCid(ctx, A.Self(), idB); err == nil {
+			c2.Write(ctx, append(c16uvarint(2), 7, 8))
+			c2.Close()
+		}
+	}
+	c16settle(10*time.Second, func() bool { return c16free(A.InboundPermit, limit) == 1 })
+	after := c16free(A.InboundPermit, limit)
+	return fmt.Sprintf("%s | ok a=%d b=%d during=%d c=%d after=%d", head, a, b, during, cc, after)
+}
+
 // ---------------------------------------------------------------- outbound stress
 
 func c16stressCase(g *c16gen, limit, k, m int) string {
@@ -938,6 +1074,10 @@ func c16jobOf0(g *c16gen, f []string) *c16job {
 		return &c16job{run: func() string { return c16shutdownQueuedCase(g, c16atoi(f[1]), c16atoi(f[2])) }}
 	case "in":
 		return &c16job{run: func() string { return c16inCase(g, f[1], c16atoi(f[2]), f[3], c16atoi(f[4])) }}
+	case "permops":
+		return &c16job{run: func() string { return c16permopsCase(g, f[1], c16atoi(f[2]), f[3]) }}
+	case "laterelease":
+		return &c16job{run: func() string { return c16lateReleaseCase(g, c16atoi(f[1]), c16atoi(strings.TrimPrefix(f[2], "v"))) }}
 	case "ostall":
 		return &c16job{run: func() string {
 			return c16ostallCase(g, c16atoi(f[1]), c16atoi(f[2]), c16atoi(strings.TrimPrefix(f[3], "v")))
@@ -1053,6 +1193,33 @@ func runC16(c *Ctx) {
 			add(&quick, fmt.Sprintf("stress %d %d %d", L, 3*L+5, 40))
 		}
 	}
+	// stale handles: fixed sequences (the overlapping-transfer pattern) and random ones, both directions
+	for _, dir := range []string{"in", "out"} {
+		add(&quick, fmt.Sprintf("permops %s 1 g,r0,g,r0,g,r1,g", dir))
+		add(&quick, fmt.Sprintf("permops %s 3 g,g,g,g,r1,r1,g,r1,g,r0,r2,r2,g,g", dir))
+		add(&quick, fmt.Sprintf("permops %s 0 g,r0,r0,g", dir))
+	}
+	nops := 10
+	if thorough {
+		nops = 150
+	}
+	for i := 0; i < nops; i++ {
+		L := r.Intn(4)
+		k := 3 + r.Intn(14)
+		ops := make([]string, k)
+		gets := 0
+		for j := range ops {
+			if gets == 0 || r.Intn(5) < 2 {
+				ops[j] = "g"
+				gets++
+			} else {
+				ops[j] = fmt.Sprintf("r%d", r.Intn(gets)) // any handle, released or not
+			}
+		}
+		add(&quick, fmt.Sprintf("permops %s %d %s", []string{"in", "out"}[r.Intn(2)], L, strings.Join(ops, ",")))
+	}
+	add(&slow, fmt.Sprintf("laterelease 1 v%d", r.Intn(2)))
+	add(&slow, fmt.Sprintf("laterelease 3 v%d", r.Intn(2)))
 	n := c.N
 	if n == 0 {
 		n = 12
